@@ -276,6 +276,26 @@ def check_map(sh, tm, ubis, shape, mask, case):
             if t.shape != m.shape or not np.array_equal(np.isnan(t), np.isnan(m)) or not np.array_equal(t[~mask], m[~mask]):
                 sh.violation("TensorMap.%s:differs-from-function" % k, case, {})
                 return False
+    # the same UBI map in other memory layouts: Fortran order, and a view of nine component images ubi_ij[voxels] (the last two axes
+    # strided): the kernels are handed views of the voxel blocks and must honour their strides
+    comp = np.ascontiguousarray(np.moveaxis(um, [-2, -1], [0, 1]))
+    for lname, arr in (("fortran-ordered", np.asfortranarray(um)), ("view of nine component images", np.moveaxis(comp, [0, 1], [-2, -1]))):
+        try:
+            alt = {"UB": tm.fast_invert(arr), "mt": tm.ubi_to_mt(arr)}
+            alt["unitcell"] = tm.mt_to_unitcell(alt["mt"], dummy6)
+            alt["B"] = tm.unitcell_to_b(alt["unitcell"], dummy33)
+            alt["U"] = tm.ubi_and_b_to_u(arr, alt["B"])
+            if len(shape) == 3:
+                T3 = tm.TensorMap(maps={"UBI": arr})
+                alt.update({"TensorMap." + k: np.asarray(getattr(T3, k)) for k in ("UB", "mt", "unitcell", "B", "U")})
+        except Exception as e:
+            sh.violation("tensor_map:raises-for-a-UBI-map-in-another-memory-layout", dict(case, layout=lname), {"error": repr(e)[:200]})
+            return False
+        for k, a_ in alt.items():
+            w_ = masked[k.split(".")[-1]]
+            if a_.shape != w_.shape or not np.array_equal(np.isnan(a_), np.isnan(w_)) or not np.allclose(a_[~np.isnan(a_)], w_[~np.isnan(w_)], rtol=0, atol=1e-12 * max(1.0, np.nanmax(np.abs(w_)) if (~np.isnan(w_)).any() else 1.0)):
+                sh.violation("tensor_map.%s:depends-on-the-memory-layout-of-the-UBI-map" % k, dict(case, layout=lname), {})
+                return False
     if len(shape) == 3:
         # history on ONE map object: the derived maps are read, the UBI map is replaced through each of the three public routes (the voxels
         # in another order, another NaN mask), the derived maps are read again: they are those of the new UBI map
